@@ -1,0 +1,9 @@
+//go:build verif
+
+// Accessors for the verification harness in /verif (build tag "verif").
+package callback
+
+import "git.sr.ht/~adrian-blx/psa-dhcp/lib/libif"
+
+func VerifEnvEntry(key, val string) string           { return envEntry(key, val) }
+func VerifDumpScriptConf(c *libif.Ifconfig) []string { return dumpScriptConf(c) }
